@@ -9,6 +9,7 @@ import HcipyVerif.Lemmas.Axes
 import HcipyVerif.Lemmas.FftSelect
 import HcipyVerif.Lemmas.FftState
 import HcipyVerif.Lemmas.FftMulti
+import HcipyVerif.Lemmas.FftDecide
 import HcipyVerif.Lemmas.FftPlan
 import HcipyVerif.Lemmas.ZoomN
 import HcipyVerif.Model.FftWeights
@@ -518,6 +519,34 @@ theorem Bad.sharedPool :
       ≠ ([⟨0, false, fun _ => 0⟩, ⟨1, true, fun _ => 1⟩, ⟨0, false, fun _ => (0 : ℤ)⟩].map
           (callFresh (fun _ => ⟨false, 1, 2, 2⟩) (fun _ _ _ => (1 : ℤ)))).map (fun r => r 0) := by
   rw [runPool_leftovers]; decide
+
+/-! ### the float decisions of `__init__` (`Model/FftDecide.lean`; repaired by D65, D66) -/
+
+/-- the phase ramp of the output shift is skipped exactly when the shift is zero on every axis — the only
+case in which the multiplication is the identity (`shiftNeeded` is run by `C01 decide shift`) -/
+theorem shift_multiplier_skipped_iff_zero (s : List ℚ) : shiftNeeded s = false ↔ ∀ x ∈ s, x = 0 :=
+  shiftNeeded_false_iff s
+
+/-- the decision does not depend on the unit of the coordinates -/
+theorem shift_decision_scale_free (c : ℚ) (hc : c ≠ 0) (s : List ℚ) :
+    shiftNeeded (s.map (fun x => c * x)) = shiftNeeded s :=
+  shiftNeeded_scale c hc s
+
+/-- the zero-padding / cropping cut-out is omitted exactly when the two shapes are equal -/
+theorem cutout_omitted_iff_same_shape (M N : List ℕ) : cutoutNeeded M N = false ↔ M = N :=
+  cutoutNeeded_false_iff M N
+
+/-- D65: `np.allclose(shift, 0)` drops a quarter-pixel shift once the unit makes it smaller than `1e-8`,
+although the same shift in another unit (scaled by `2^30`) is applied -/
+theorem Bad.shiftDroppedOld :
+    shiftNeededOld [1 / 2 ^ 30] = false ∧ shiftNeededOld ([1 / 2 ^ 30].map (fun x => 2 ^ 30 * x)) = true ∧
+      shiftNeeded [1 / 2 ^ 30] = true := by
+  decide +kernel
+
+/-- D66: `np.allclose` on shapes: an axis of 100001 samples padded to 100002 is taken to need no cut-out -/
+theorem Bad.cutoutDroppedOld :
+    cutoutNeededOld [100002] [100001] = false ∧ cutoutNeeded [100002] [100001] = true := by
+  decide +kernel
 
 /-! ### MatrixFourierTransform: `precompute_matrices` / `allocate_intermediate` (`Model/MftState.lean`) -/
 
